@@ -233,6 +233,11 @@ def run(ctx):
     hists += [[("compile", "K1", "A"), ("compile", "K1", "B"), ("run", "K1")], [("compile", "K2", "B"), ("run", "K2"), ("compile", "K2", "A"), ("compile", "K1", "B")]]
     if ctx.quick:
         hists = ctx.rng.sample(hists, 24) + hists[-2:]
+    elif len(hists) > 700:
+        # six kernels: every history of two compilations, and a sample of the histories of three
+        two = [h for h in hists if sum(1 for x in h if x[0] == "compile") == 2]
+        rest = [h for h in hists if h not in two]
+        hists = two + ctx.rng.sample(rest, 700 - len(two)) if len(two) < 700 else two
     else:
         ctx.exhaustive = True
     for h in hists:
